@@ -1,6 +1,125 @@
-(* C16 (under construction) *)
-From Coq Require Import List.
-From CA Require Import Model.Driver Model.Cond Spec.Select.
+(* C16 — Conditional assembly and command-line defines select exactly one world.
+   Only statements; each closed by a lemma of Proofs/CondEvalP.v, Proofs/CondLoopP.v, Proofs/CondSelectP.v
+   (the define parsing: Proofs/DriverP.v, shared with C18).
+   Model: Model/Cond.v (first loop of asm::assemble).  Specification: Spec/Select.v (direct interpreter).
+   `run optst ds tree = ROk (its, t)`: the loop ended, no `#if` is left, no define is unused; `its` is the final
+   top-level node list, `t` the final symbol table, `lookup t` the final valuation. *)
+From Coq Require Import ZArith NArith List Bool.
+From CA Require Import Model.Driver Model.Cond Spec.Select Proofs.DriverP Proofs.CondEvalP Proofs.CondLoopP Proofs.CondSelectP.
 Import ListNotations.
-Example C16_placeholder : run true [] [] = ROk ([], []).
-Proof. reflexivity. Qed.
+Open Scope list_scope.
+
+(* more constants known never changes a definite result (strict operators propagate Unknown, lazy operators decide
+   on a definite left operand only) *)
+Theorem eval_monotone : forall f g e v, le_lk f g -> eval f e = ROk v -> v <> VUnknown -> eval g e = ROk v.
+Proof. exact eval_mono. Qed.
+
+(* ... and an evaluation error is final as well *)
+Theorem eval_error_monotone : forall f g e c, le_lk f g -> eval f e = RErr c -> exists c', eval g e = RErr c'.
+Proof. exact eval_mono_err. Qed.
+
+(* the final node list is the direct interpretation of the tree under the FINAL valuation: every #if was replaced by
+   the first arm whose condition is true under it (else-arm, or nothing), to any depth *)
+Theorem C16_consistent : forall optst ds tree its t, run optst ds tree = ROk (its, t) ->
+  map forget its = select_all (lookup t) tree.
+Proof. exact run_consistent. Qed.
+
+(* nothing of an unselected arm is ever declared, defined or emitted: every node of the final list is a node of the
+   selected world, every node of it is declared, and every declaration of the final table belongs to one of them *)
+Theorem C16_invisible : forall optst ds tree its t, run optst ds tree = ROk (its, t) ->
+  (forall n, In n (map forget its) <-> In n (select_all (lookup t) tree)) /\
+  (forall lvl nm s d, In (ISym lvl nm s d) its -> exists p en, d = Some p /\ find_entry p t = Some en) /\
+  (forall en, In en t -> exists lvl nm s, In (NSym lvl nm s) (select_all (lookup t) tree) /\
+                                          In (ISym lvl nm s (Some (e_path en))) its /\ e_kind en = kind_of s).
+Proof. exact run_invisible. Qed.
+
+(* a condition on the selected path that is not a definite boolean under the final valuation => not accepted *)
+Theorem C16_undecidable : forall optst ds tree its t, run optst ds tree = ROk (its, t) ->
+  decided_all (lookup t) tree = true /\ existsb is_if its = false.
+Proof. exact run_undecidable. Qed.
+
+(* a define replaces the value of the constant with that full name ... *)
+Theorem C16_define : forall optst ds tree its t, run optst ds tree = ROk (its, t) ->
+  forall lvl nm e p v, In (ISym lvl nm (SConst e) (Some p)) its -> find_define (join_dot p) ds = Some v ->
+  exists en, find_entry p t = Some en /\ e_value en = v.
+Proof. exact run_define'. Qed.
+
+(* ... before any use: in every state of the loop (the invariant `Good`) the value of such a constant is Unknown or the
+   define's, never that of its own expression; and by monotonicity every condition decided meanwhile saw one of the two *)
+Theorem C16_define_before_use : forall ds t its, Good ds t its ->
+  forall lvl nm e p en v, In (ISym lvl nm (SConst e) (Some p)) its -> find_entry p t = Some en ->
+  find_define (join_dot p) ds = Some v -> e_value en = VUnknown \/ e_value en = v.
+Proof. exact good_define. Qed.
+
+Theorem C16_loop_invariant : forall optst ds fuel t its prev itsF tF,
+  loop fuel optst ds t its prev = ROk (itsF, tF) -> Good ds t its -> Good ds tF itsF /\ le_lk (lookup t) (lookup tF).
+Proof. exact loop_invariant. Qed.
+
+(* a define that names no declared constant (undeclared, a label, a name only an unselected arm declares) => not accepted *)
+Theorem C16_unused : forall optst ds tree its t, run optst ds tree = ROk (its, t) ->
+  forall n v, In (n, v) ds -> exists en, find_entry (split_on 46%N n) t = Some en /\ e_kind en = KConst.
+Proof. exact run_unused. Qed.
+
+(* hierarchical names: the override (full name of the declaration) and the unused check (name split at '.') agree *)
+Theorem C16_define_hierarchical : forall p, p <> [] -> (forall x, In x p -> x <> [] /\ ~ In 46%N x) ->
+  split_on 46%N (join_dot p) = p.
+Proof. exact split_join_dot. Qed.
+
+(* NAME, NAME=true|false, NAME=[-]literal; empty value and a second '=' are errors (the C18 theorem, re-exported) *)
+Theorem C16_define_parse : forall name, ~ In 61%N name ->
+  parse_define name = COk (name, DBool true) /\
+  parse_define (name ++ 61%N :: t_true) = COk (name, DBool true) /\
+  parse_define (name ++ 61%N :: t_false) = COk (name, DBool false) /\
+  parse_define (name ++ [61%N]) = CErr (EDefineValue name) /\
+  parse_define (name ++ [61%N; 45%N]) = CErr (EDefineValue name).
+Proof. exact define_parse_short. Qed.
+
+(* fuel.  FULL statement (NOT proved; the correspondence run reports any FUEL answer of the extracted model):
+     forall optst ds tree, run optst ds tree <> RFuel        with fuel_for tree = size + constants + 2.
+   Proved part: a result other than RFuel does not depend on the fuel. *)
+Theorem C16_fuel_partial : forall optst ds tree fuel k r,
+  run_fuel fuel optst ds tree = r -> r <> RFuel -> run_fuel (fuel + k) optst ds tree = r.
+Proof. exact run_fuel_mono. Qed.
+
+(* ---- non-vacuity --------------------------------------------------------------------------------------------------- *)
+From Coq Require Import String.
+Open Scope string_scope.
+Definition T (s : string) : text := txt s.
+Definition v0 (s : string) : cexpr := CVar 0 [T s].
+(*  #if y == 2 { #d8 7 } #elif y == 3 { #d8 8 } #else { #d8 9 }  /  #if x == 1 { y = 2 }  /  x = 1   *)
+Definition ex_tree : list node :=
+  [ NIf (CBin OEq (v0 "y") (CInt 2)) [NOther 7] (Some [NIf (CBin OEq (v0 "y") (CInt 3)) [NOther 8] (Some [NOther 9])]);
+    NIf (CBin OEq (v0 "x") (CInt 1)) [NSym 0 (T "y") (SConst (CInt 2))] None;
+    NSym 0 (T "x") (SConst (CInt 1)) ].
+Definition outcome (r : er (list item * table)) : option (list N * list (text * cval)) :=
+  match r with ROk (its, t) => Some (markers (map forget its), map (fun en => (join_dot (e_path en), e_value en)) t) | _ => None end.
+
+Example C16_nonvacuous :
+  outcome (run true [] ex_tree) = Some ([7%N], [(T "x", VInt 1); (T "y", VInt 2)]) /\
+  outcome (run true [(T "y", VInt 3)] ex_tree) = Some ([8%N], [(T "x", VInt 1); (T "y", VInt 3)]) /\
+  outcome (run false [(T "y", VInt 5)] ex_tree) = Some ([9%N], [(T "x", VInt 1); (T "y", VInt 5)]) /\
+  run true [(T "x", VInt 0)] ex_tree = RErr ELeftover /\                 (* y is never declared: `y == 2` stays unknown *)
+  run true [(T "z", VBool true)] ex_tree = RErr EUnused /\
+  run true [] [NSym 0 (T "l") SLabel; NIf (CBin OEq (v0 "l") (CInt 0)) [NOther 1] None] = RErr ELeftover /\
+  run true [(T "l", VInt 5)] [NSym 0 (T "l") SLabel] = RErr EUnused /\
+  run true [] [NSym 0 (T "x") (SConst (CInt 1)); NIf (CBool true) [NSym 0 (T "x") (SConst (CInt 2))] None] = RErr EDup /\
+  outcome (run true [] [NSym 0 (T "x") (SConst (CInt 1)); NIf (CBool false) [NSym 0 (T "x") (SConst (CInt 2)); NOther 1] None])
+    = Some ([], [(T "x", VInt 1)]) /\
+  (* lazy operators decide on a definite left operand only *)
+  eval (fun _ _ => VUnknown) (CBin OLazyOr (CBool true) (v0 "g")) = ROk (VBool true) /\
+  eval (fun _ _ => VUnknown) (CBin OLazyOr (v0 "g") (CBool true)) = ROk VUnknown /\
+  (* hierarchical define *)
+  outcome (run true [(T "a.b", VInt 5)] [NSym 0 (T "a") SLabel; NSym 1 (T "b") (SConst (CInt 2));
+                                         NIf (CBin OEq (CVar 0 [T "a"; T "b"]) (CInt 5)) [NOther 1] (Some [NOther 2])])
+    = Some ([1%N], [(T "a", VUnknown); (T "a.b", VInt 5)]) /\
+  run true [(T "b", VInt 5)] [NSym 0 (T "a") SLabel; NSym 1 (T "b") (SConst (CInt 2))] = RErr EUnused.
+Proof. vm_compute. repeat split. Qed.
+
+(* the known finding F55 in the model: the nested symbol keeps the parent it had when it was declared *)
+Example C16_nested_symbol_across_if :
+  outcome (run true [] [NSym 0 (T "a") SLabel; NIf (CBool true) [NSym 0 (T "b") SLabel] None; NSym 1 (T "x") (SConst (CInt 1))])
+    = Some ([], [(T "a", VUnknown); (T "a.x", VInt 1); (T "b", VUnknown)]) /\
+  world_names [] [] (select_all (fun _ _ => VUnknown)
+     [NSym 0 (T "a") SLabel; NIf (CBool true) [NSym 0 (T "b") SLabel] None; NSym 1 (T "x") (SConst (CInt 1))])
+    = Some [([T "a"], KLabel); ([T "b"], KLabel); ([T "b"; T "x"], KConst)].
+Proof. vm_compute. repeat split. Qed.
